@@ -495,8 +495,8 @@ impl Sess {
             None => out.fail("C20:host-cancel-publishes-offline-state", &feat("missing"), format!("{}: cancel handed over {:?}, no offline STATE certificate", op, during.iter().map(|c| c.kind.name()).collect::<Vec<_>>())),
             Some(k) => {
                 let c = states[k];
-                if !c.is_try {
-                    out.fail("C20:host-cancel-publishes-offline-state", &feat("blocking-call"), format!("{}: the offline STATE certificate went through the client's blocking publish", op));
+                if let Some(b) = states.iter().find(|c| !c.is_try) {
+                    out.fail("C20:host-cancel-publishes-offline-state", &feat("blocking-call"), format!("{}: cancel handed a STATE message ({:?}) to the client's BLOCKING publish", op, b.state));
                 }
                 if c.topic != "spBv1.0/STATE/host" {
                     out.fail("C20:host-cancel-publishes-offline-state", &feat("topic"), format!("{}: offline STATE certificate published on {}", op, c.topic));
@@ -1936,10 +1936,13 @@ fn bp_from_desc(desc: &str, out: &mut Out) {
 /// later / never; (3) random mixes of 1-3 nodes.
 fn cancel_scenarios(out: &mut Out, rng: &mut Rng) {
     let t0 = 1_000_000u64;
-    for (name, off) in [("quiet", 1u64), ("quiet", 0), ("host-offline", 0), ("host-offline", 1), ("gap-open", 0), ("gap-open", 1), ("unborn", 1)] {
-        let cfg = cfg_default("100", 0, 1);
+    // the last three run against a client whose request queue is full (`tf=1`: every try_ call is refused at once,
+    // blocking calls get through): cancel must not fall back to a blocking call for its certificate
+    for (name, off, full) in [("quiet", 1u64, false), ("quiet", 0, false), ("host-offline", 0, false), ("host-offline", 1, false), ("gap-open", 0, false), ("gap-open", 1, false), ("unborn", 1, false),
+                              ("quiet", 1, true), ("quiet", 0, true), ("gap-open", 0, true)] {
+        let cfg = if full { format!("{} tf=1", cfg_default("100", 0, 1)) } else { cfg_default("100", 0, 1) };
         let mut c = Case::begin(out, &cfg, t0);
-        c.out.set_desc(format!("cancel basic {}", name));
+        c.out.set_desc(format!("cancel basic {}{}", name, if full { " client-queue-full" } else { "" }));
         if name != "unborn" {
             c.op(&format!("ev n1 nbirth ts={} bd=3 id=1 ans=ok", t0));
             c.op(&format!("ev n1 dbirth dev=1 seq=1 ts={} id=2 ans=ok", t0 + 1));
